@@ -185,6 +185,8 @@ def replay(scratch, prog, structs, traces, name, san=False):
                     f.write("W %d %d %d\n" % (ev["win"], wid, ev["x"]))
                 elif ev["e"] == "eq":
                     f.write("E\n")
+                elif ev["e"] == "eqs":
+                    f.write("Q\n")
                 elif ev["e"] == "cp":
                     f.write("C %d\n" % ev["dst"])
                 elif ev["e"] == "text":
